@@ -105,7 +105,7 @@ func genWorldKeyed(src *choice.Src, o WOpts, keySeed uint64) *World {
 		// some other process (an editor, a build that hangs) holds an advisory lock on the existing output file
 		w.OutLocked = true
 	}
-	if o.LayoutFault && src.Chance("oddout", 1, 6) {
+	if o.LayoutFault && src.Chance("oddout", 1, 4) {
 		switch src.Draw("oddoutk", 15) {
 		case 13, 14:
 			w.OutKind, w.Out = "symlink-dotdot-via-linked-dir", "linkdir/out.go"
@@ -153,6 +153,13 @@ func genWorldKeyed(src *choice.Src, o WOpts, keySeed uint64) *World {
 			if src.Chance("flag"+f, 1, 5) {
 				w.Flags = append(w.Flags, f)
 			}
+		}
+		// a flag meets the defect it is for: a dangling reference under the ignore flag that covers it
+		if strings.Contains(w.Class, "dangling-param") && !w.HasFlag("--ignore-missing-params") && src.Bool("flag.match.p") {
+			w.Flags = append(w.Flags, "--ignore-missing-params")
+		}
+		if strings.Contains(w.Class, "dangling-svc") && !w.HasFlag("--ignore-missing-services") && src.Bool("flag.match.s") {
+			w.Flags = append(w.Flags, "--ignore-missing-services")
 		}
 	}
 	if o.AbsPatterns {
